@@ -159,10 +159,18 @@ def run_verus_job(ctx, res, job):
     if tool_errs and not r["fns"]:
         res.undecided.append("%s: generated file rejected by verus/rustc: %s" % (job.name, tool_errs[0]["text"][:1500]))
         return
-    # group diagnostics by function label
+    # group diagnostics by the function that encloses the reported line in the generated file
     by_label = {}
+    glines = job.text.splitlines()
+    fn_re = re.compile(r"^\s*(?:pub(?:\([a-z]+\))?\s+)?(?:(?:open|closed|uninterp)\s+)?(?:(?:proof|spec|exec|const|unsafe)\s+)*fn\s+(\w+)")
     for e in r["errors"]:
-        lab = job.vfile.label_at(e["line"]) if e["line"] else "?"
+        lab = "?"
+        if e["line"]:
+            for ln in range(min(e["line"], len(glines)) - 1, -1, -1):
+                m = fn_re.match(glines[ln])
+                if m:
+                    lab = m.group(1)
+                    break
         by_label.setdefault(lab, []).append(e)
     for fn in job.expect_fns:
         oid = "verus:%s:%s" % (res.unit, fn)
@@ -180,7 +188,7 @@ def run_verus_job(ctx, res, job):
             res.obls.append(Obl(oid, "verus", "discharged", time_s=info["us"] / 1e6, fn=fn))
         else:
             errs = [e for lab, es in by_label.items() for e in es if lab.split("::")[-1] == fn.split("::")[-1]] or \
-                   [e for e in r["errors"]]
+                   [e for e in r["errors"] if e["class"] != "obligation"]
             classes = {e["class"] for e in errs}
             detail = "\n\n".join(e["text"] for e in errs[:6])
             if "obligation" in classes:
